@@ -1,8 +1,103 @@
 package main
 
 import (
+	"flag"
 	"fmt"
-	"golang.org/x/tools/go/ssa"
+	"os"
+	"sort"
+	"strconv"
+	"strings"
+
+	"verif/tool/checks"
+	"verif/tool/gosym"
 )
 
-func main() { fmt.Println(ssa.SanityCheckFunctions) }
+func main() {
+	if len(os.Args) < 2 {
+		fmt.Fprintln(os.Stderr, "usage: vcheck run <id> [--tier quick|thorough] | replay <path> | sym ...")
+		os.Exit(2)
+	}
+	switch os.Args[1] {
+	case "sym":
+		os.Exit(symCmd(os.Args[2:]))
+	case "run":
+		os.Exit(checks.RunCmd(os.Args[2:]))
+	case "replay":
+		os.Exit(checks.ReplayCmd(os.Args[2:]))
+	default:
+		fmt.Fprintln(os.Stderr, "unknown command", os.Args[1])
+		os.Exit(2)
+	}
+}
+
+// symCmd: ad-hoc exploration of one harness entry (development aid).
+func symCmd(argv []string) int {
+	fs := flag.NewFlagSet("sym", flag.ExitOnError)
+	pkg := fs.String("pkg", "Utils", "repo package directory")
+	entry := fs.String("entry", "", "harness entry function")
+	argS := fs.String("args", "", "comma-separated int arguments")
+	workers := fs.Int("workers", 8, "")
+	maxPaths := fs.Int("maxpaths", 100000, "")
+	log := fs.String("smtlog", "", "")
+	solver := fs.String("solver", "z3", "")
+	fs.Parse(argv)
+	eng, err := checks.LoadRepo(strings.Split(*pkg, ",")...)
+	if err != nil {
+		fmt.Println("INCONCLUSIVE", err)
+		return 2
+	}
+	fmt.Printf("loaded in %v\n", eng.LoadTime)
+	var args []int
+	if *argS != "" {
+		for _, a := range strings.Split(*argS, ",") {
+			n, _ := strconv.Atoi(a)
+			args = append(args, n)
+		}
+	}
+	first := strings.Split(*pkg, ",")[0]
+	fn := eng.Func(checks.RepoModule+"/"+first, *entry)
+	if fn == nil {
+		fmt.Println("no such entry", *entry)
+		return 2
+	}
+	eng.Cfg.Workers = *workers
+	eng.Cfg.MaxPaths = *maxPaths
+	eng.Cfg.Solver = *solver
+	_ = log
+	rep := eng.Explore(fn, checks.Ints(args...), nil)
+	printReport(rep)
+	return 0
+}
+
+func printReport(rep *gosym.Report) {
+	fmt.Printf("entry %s: paths=%d decisions=%d steps=%d status=%v wall=%v solver(sat=%d unsat=%d unk=%d err=%d time=%v)\n",
+		rep.Entry, rep.Paths, rep.Decisions, rep.Steps, rep.Status, rep.Wall, rep.SolverSat, rep.SolverUnsat, rep.SolverUnk, rep.SolverErr, rep.SolverTime)
+	fmt.Println("covers:", rep.Covers)
+	var fns []string
+	for f, c := range rep.Funcs {
+		fns = append(fns, fmt.Sprintf("%s:%d", f, c))
+	}
+	sort.Strings(fns)
+	fmt.Println("funcs:", fns)
+	fmt.Println("stubs:", rep.Stubs)
+	for _, p := range rep.Problems {
+		fmt.Println("PROBLEM:", p)
+	}
+	for n := range rep.Notes {
+		fmt.Println("note:", n)
+	}
+	for i, v := range rep.Violations {
+		if i >= 5 {
+			fmt.Printf("... %d more violations\n", len(rep.Violations)-5)
+			break
+		}
+		fmt.Printf("VIOLATION %s\n  model:", v.What)
+		for _, s := range v.Syms {
+			fmt.Printf(" %s=%d", s, int64(v.Model[s]))
+		}
+		fmt.Println()
+	}
+	for _, s := range rep.Samples {
+		fmt.Printf("sample: %s %v pc=%s\n", s.Decisions, s.Model, s.PC)
+	}
+}
